@@ -20,6 +20,8 @@
       f_units   sizeChange is kept in name+CID bytes also in block-size mode (C16-4)
       f_addname needsToSwitchToBasicDir sizes the entry being ADDED from MakeLink(node), whose
                 Name is empty: the name bytes of the new entry are not counted (C16-5)
+      f_reloadtl a HAMT directory loaded from its node takes the ROOT link count as totalLinks
+                (finding C15-1; it influences decisions only when maxLinks is set)
     No proofs in this file. *)
 From Coq Require Import List ZArith Bool NArith String Ascii.
 From V Require Import lib.Verdict model.M_C15.
@@ -50,7 +52,7 @@ Record cfg16 := mkcfg16 {
   g_dynamic : bool   (* DynamicDirectory; false = pure HAMTDirectory *)
 }.
 
-Record flags16 := mkflags16 { f_prefix : bool; f_thresh : bool; f_gate : bool; f_units : bool; f_addname : bool }.
+Record flags16 := mkflags16 { f_prefix : bool; f_thresh : bool; f_gate : bool; f_units : bool; f_addname : bool; f_reloadtl : bool }.
 
 (** linkSizeFor / the per-link term of estimatedSize in the current mode *)
 Definition link_size (c : cfg16) (n : Z) (v : val) : Z :=
@@ -165,7 +167,7 @@ Section Dyn.
     let below := base_size c + total_size c (walk (Node cs)) + delta <=? eff c th in
     gate && below && canMax.
 
-  Inductive op16 := AAdd (k : name) (v : val) | ARemove (k : name).
+  Inductive op16 := AAdd (k : name) (v : val) | ARemove (k : name) | AReload.
 
   (** what the harness reads after every operation: error class, UnixFS type of the
       directory, estimatedSize (basic) or sizeChange (HAMT), totalLinks, hamtShardingSize *)
@@ -236,8 +238,24 @@ Section Dyn.
           end
     end.
 
+  (** GetNode, all blocks stored, NewDirectoryFromNode / NewHAMTDirectoryFromNode on the root, the
+      configuration re-applied.  On the abstract directory this is the identity (P_C15.from_to_node:
+      loading what Node() wrote gives back the same shard tree; a basic node's links come back in
+      name order); the bookkeeping restarts: sizeChange 0, totalLinks recounted, estimatedSize
+      recomputed (it is exact in every variant), threshold re-applied. *)
+  Definition reload16 (s : st) : st :=
+    match s with
+    | SBasic l es th => SBasic (sort_links l) es (g_th c)
+    | SHamt cs tl sc th =>
+        SHamt cs (if f_reloadtl fl then Z.of_nat (List.length cs) else count cs) 0 (g_th c)
+    end.
+
   Definition step16 (s : st) (o : op16) : st * ob16 :=
-    let (s', e) := match o with AAdd k v => add16 k v s | ARemove k => remove16 k s end in
+    let (s', e) := match o with
+                   | AAdd k v => add16 k v s
+                   | ARemove k => remove16 k s
+                   | AReload => (reload16 s, None)
+                   end in
     (s', observe e s').
 
   Fixpoint run16 (s : st) (ops : list op16) : st * list ob16 :=
@@ -285,6 +303,7 @@ Definition apply_op (m : fmap) (o : op16) (e : option err) : fmap :=
   match e, o with
   | None, AAdd k v => mput k v m
   | None, ARemove k => mdel k m
+  | None, AReload => m
   | Some _, _ => m
   end.
 
@@ -306,6 +325,7 @@ Fixpoint spec_hist (c : cfg16) (m : fmap) (ops : list op16) (obs : list ob16) : 
       (match o_err b, o with            (* edits succeed, except removing a missing name *)
        | None, AAdd _ _ => true
        | None, ARemove k => match mget k m with Some _ => true | None => false end
+       | None, AReload => true
        | Some ENotExist, ARemove k => match mget k m with Some _ => false | None => true end
        | Some EMaxLinks, AAdd k _ =>     (* only a directory that cannot shard may refuse, when full *)
            (eff c (g_th c) =? 0) && g_dynamic c &&
@@ -336,13 +356,13 @@ Definition ob16_eqb (a b : ob16) : bool :=
 Inductive case16 :=
 | CRoot (c : cfg16) (tbl : table) (ops : list op16) (obs : list ob16) (same_cid : bool) (canon_hamt : bool).
 
-Definition fl_spec := mkflags16 false false false false false.      (* what the property demands *)
-Definition fl_code := mkflags16 false false true true false.        (* the code today: C16-1, C16-2, C16-5 repaired *)
-Definition fl_p := mkflags16 true false true true false.            (* C16-1 back *)
-Definition fl_t := mkflags16 false true true true false.            (* C16-2 back *)
-Definition fl_n := mkflags16 false false true true true.            (* C16-5 back *)
-Definition fl_all := mkflags16 true true true true true.            (* the code as it was found *)
-Definition fl_gate_only := mkflags16 false false true false false.  (* gate with consistent units *)
+Definition fl_spec := mkflags16 false false false false false false.      (* what the property demands *)
+Definition fl_code := mkflags16 false false true true false true.        (* the code today: C16-1, C16-2, C16-5 repaired *)
+Definition fl_p := mkflags16 true false true true false true.            (* C16-1 back *)
+Definition fl_t := mkflags16 false true true true false true.            (* C16-2 back *)
+Definition fl_n := mkflags16 false false true true true true.            (* C16-5 back *)
+Definition fl_all := mkflags16 true true true true true true.            (* the code as it was found *)
+Definition fl_gate_only := mkflags16 false false true false false false.  (* gate with consistent units *)
 
 Definition is_hamt16 (s : st) : bool := match s with SHamt _ _ _ _ => true | _ => false end.
 
